@@ -59,26 +59,55 @@ theorem warmF_bounds {P N : Rat} (hP : 0 ≤ P) (hN : 0 ≤ N) (hne : P ≠ N) :
 def warmP (s : RS) (a1 : Nat → Rat) : Rat := rsum (fun i => if 0 < clipv s a1 i then clipv s a1 i else 0) s.n
 def warmN (s : RS) (a1 : Nat → Rat) : Rat := rsum (fun i => if 0 < clipv s a1 i then 0 else - clipv s a1 i) s.n
 
+/-- clipping changed at least one coefficient -/
+def anyClip (s : RS) (a1 : Nat → Rat) : Prop := ∃ k, k < s.n ∧ clipv s a1 k ≠ a1 k
+
+theorem anyClip_iff (s : RS) (a1 : Nat → Rat) :
+    ((List.range s.n).any fun i => !(smax (smin (a1 i) (s.U i)) (s.L i) == a1 i)) = true ↔ anyClip s a1 := by
+  unfold anyClip clipv
+  rw [List.any_eq_true]
+  constructor
+  · rintro ⟨k, hk, h⟩
+    refine ⟨k, List.mem_range.mp hk, ?_⟩
+    simpa using h
+  · rintro ⟨k, hk, h⟩
+    exact ⟨k, List.mem_range.mpr hk, by simpa using h⟩
+
+open Classical in
 /-- pointwise description of the warm-start vector -/
 theorem warmStartVector_apply (s : RS) (a1 : Nat → Rat) (bias : Bool) (k : Nat) :
     warmStartVector s a1 bias k =
-      if bias = false then clipv s a1 k else if warmP s a1 = warmN s a1 then clipv s a1 k else
+      if bias = false then clipv s a1 k else if ¬ anyClip s a1 ∨ warmP s a1 = warmN s a1 then clipv s a1 k else
       if (0 < clipv s a1 k ↔ warmN s a1 < warmP s a1) ∧ clipv s a1 k ≠ 0 then clipv s a1 k * warmF (warmP s a1) (warmN s a1)
       else clipv s a1 k := by
   unfold warmStartVector
   dsimp only
   rw [warm_sums (fun k => smax (smin (a1 k) (s.U k)) (s.L k)) s.n]
-  show (if (!bias) = true then clipv s a1 else if (warmP s a1 == warmN s a1) = true then clipv s a1 else
+  show (if (!bias) = true then clipv s a1 else
+      if (!((List.range s.n).any fun i => !(smax (smin (a1 i) (s.U i)) (s.L i) == a1 i)) || (warmP s a1 == warmN s a1)) = true
+      then clipv s a1 else
       fun k => if ((decide (clipv s a1 k > (0.0 : Rat)) == decide (warmP s a1 > warmN s a1)) && !(clipv s a1 k == (0.0 : Rat))) = true
         then clipv s a1 k * (if decide (warmP s a1 > warmN s a1) = true then warmN s a1 / warmP s a1 else warmP s a1 / warmN s a1)
         else clipv s a1 k) k = _
   cases bias
   · simp
-  · simp only [Bool.not_true, Bool.false_eq_true, if_false, beq_iff_eq]
+  · simp only [Bool.not_true, Bool.false_eq_true, if_false]
     rw [if_neg (show ¬ ((true : Bool) = false) by decide)]
-    by_cases hPN : warmP s a1 = warmN s a1
-    · simp [hPN]
-    · rw [if_neg hPN, if_neg hPN]
+    have hguard : ((!((List.range s.n).any fun i => !(smax (smin (a1 i) (s.U i)) (s.L i) == a1 i)) || (warmP s a1 == warmN s a1)) = true)
+        ↔ (¬ anyClip s a1 ∨ warmP s a1 = warmN s a1) := by
+      rw [Bool.or_eq_true, beq_iff_eq, Bool.not_eq_true', ← anyClip_iff]
+      constructor
+      · rintro (h | h)
+        · exact Or.inl (by rw [h]; simp)
+        · exact Or.inr h
+      · rintro (h | h)
+        · left; cases hx : ((List.range s.n).any fun i => !(smax (smin (a1 i) (s.U i)) (s.L i) == a1 i))
+          · rfl
+          · exact absurd hx h
+        · exact Or.inr h
+    by_cases hG : (¬ anyClip s a1 ∨ warmP s a1 = warmN s a1)
+    · rw [if_pos (hguard.2 hG), if_pos hG]
+    · rw [if_neg (fun h => hG (hguard.1 h)), if_neg hG]
       have hcond : (((decide (clipv s a1 k > (0.0 : Rat)) == decide (warmP s a1 > warmN s a1)) && !(clipv s a1 k == (0.0 : Rat))) = true)
           ↔ ((0 < clipv s a1 k ↔ warmN s a1 < warmP s a1) ∧ clipv s a1 k ≠ 0) := by
         rw [lit0]
